@@ -13,6 +13,8 @@
 #include <set>
 #include <chrono>
 #include <functional>
+#include <csignal>
+#include <unistd.h>
 
 namespace vh {
 
@@ -66,6 +68,22 @@ struct Ctx {
 
 inline Ctx& ctx() { static Ctx c; return c; }
 
+// The case being executed right now (replay text).  Printed by the sanitizer / signal hooks below so that a
+// fatal outcome (ASan abort, SIGSEGV) still identifies the exact failing case; the driver turns the
+// "VH-CURRENT-CASE:" line into the replay file of the reported violation.
+inline char* current_case_buf() { static char b[8192]; return b; }
+inline void set_case(const std::string& s) {
+  char* b = current_case_buf(); size_t j = 0;
+  for (size_t i = 0; i < s.size() && j + 3 < 8192; i++) { if (s[i] == '\n') { b[j++] = '\\'; b[j++] = 'n'; } else b[j++] = s[i]; }
+  b[j] = 0;
+}
+inline void dump_case() {
+  const char* b = current_case_buf();
+  if (b[0]) { const char* p = "\nVH-CURRENT-CASE: "; (void)!write(2, p, strlen(p)); (void)!write(2, b, strlen(b)); (void)!write(2, "\n", 1); }
+}
+inline void on_fatal_signal(int sig) { dump_case(); signal(sig, SIG_DFL); raise(sig); }
+inline void install_fatal_hooks() { signal(SIGSEGV, on_fatal_signal); signal(SIGBUS, on_fatal_signal); signal(SIGABRT, on_fatal_signal); signal(SIGFPE, on_fatal_signal); signal(SIGILL, on_fatal_signal); }
+
 inline std::string jesc(const std::string& s) {
   std::string o;
   for (unsigned char ch : s) {
@@ -85,6 +103,7 @@ inline std::string jesc(const std::string& s) {
 
 inline void parse_args(int argc, char** argv) {
   Ctx& c = ctx();
+  install_fatal_hooks();
   for (int i = 1; i < argc; i++) {
     std::string a = argv[i];
     auto next = [&]() -> std::string { return (i + 1 < argc) ? argv[++i] : ""; };
@@ -169,3 +188,8 @@ inline std::vector<std::string> split(const std::string& s, char sep) {
 }
 
 } // namespace vh
+
+// ASan calls this (weak hook) before printing a report.
+#ifndef VH_NO_HOOKS
+extern "C" void __asan_on_error() { vh::dump_case(); }
+#endif
